@@ -100,7 +100,7 @@ func (x *FnExec) execInstr(b *ssa.BasicBlock, in ssa.Instruction, st *State) boo
 		x.store(st, addr, el, x.zero(el))
 		x.vals[in] = IntV(addr)
 		x.nonNil[addr] = true
-		if !in.Heap {
+		if !in.Heap || capturedOnlyByDeferred(in) {
 			x.locals = append(x.locals, localAlloc{in, addr, el})
 		}
 	case *ssa.Store:
@@ -1104,4 +1104,47 @@ func (x *FnExec) setGhost(st *State, name string, v Term) {
 	key := "ghost:" + name
 	h := x.getHeap(st, key, false)
 	st.heaps[key] = x.ctx.Define("H_"+key, SArrI, Sto(h, "0", v))
+}
+
+// capturedOnlyByDeferred: a variable whose address is used only by this function's own loads
+// and stores and by closures that are only ever deferred here: no callee can reach it.
+func capturedOnlyByDeferred(a *ssa.Alloc) bool {
+	if a.Referrers() == nil {
+		return false
+	}
+	var ok func(v ssa.Value, depth int) bool
+	ok = func(v ssa.Value, depth int) bool {
+		if depth > 4 || v.Referrers() == nil {
+			return false
+		}
+		for _, r := range *v.Referrers() {
+			switch r := r.(type) {
+			case *ssa.DebugRef:
+			case *ssa.UnOp:
+			case *ssa.Store:
+				if r.Val == v {
+					return false
+				}
+			case *ssa.FieldAddr:
+				if !ok(r, depth+1) {
+					return false
+				}
+			case *ssa.MakeClosure:
+				if r.Referrers() == nil {
+					return false
+				}
+				for _, rr := range *r.Referrers() {
+					if d, isDefer := rr.(*ssa.Defer); !isDefer || d.Call.Value != ssa.Value(r) {
+						if _, isDbg := rr.(*ssa.DebugRef); !isDbg {
+							return false
+						}
+					}
+				}
+			default:
+				return false
+			}
+		}
+		return true
+	}
+	return ok(a, 0)
 }
